@@ -151,7 +151,8 @@ Definition covered_op (o : op) : bool :=
   | OpNewModel | OpCreateSub _ _ | OpCreateSubAt _ _ _ | OpGetOrCreate _ _
   | OpCreateNamed _ _ _ | OpCreateNamedAt _ _ _ _ | OpGetOrCreateNamed _ _ _
   | OpSetItemName _ _ | OpSetRefTarget _ _ | OpAddToFile _ _ | OpCreateFile _ _ _
-  | OpRemove _ _ | OpRemoveKind _ _ | OpRemoveFromFile _ _ | OpRemoveFile _ _ => true
+  | OpRemove _ _ | OpRemoveKind _ _ | OpRemoveFromFile _ _ | OpRemoveFile _ _
+  | OpCopy _ _ | OpCopyAt _ _ _ => true
   | OpSetCData _ v => match v with DFloat _ => false | _ => true end     (* f64::to_string is not modelled *)
   | _ => false
   end.
